@@ -66,10 +66,10 @@ PROPS = {
     "C13": {
         "level": "exploration",
         "cases": {"quick": 320, "thorough": 6400},
-        "rule": "cases = generated (role = subset of the 22 permissions drawn uniformly / nearly full / nearly empty, with or without scoping to a subset of two CAs; testbed mode on/off; 20-60 (thorough 40-160) requests) against the real daemon. "
+        "rule": "cases = generated (role = subset of the 22 permissions drawn uniformly / nearly full / nearly empty, with or without scoping to a subset of two CAs; testbed mode on (one third; one CA then has an unreachable parent and therefore an issue to report) or off; 20-60 (thorough 40-160) requests) against the real daemon. "
         "Each request picks one of the 114 routes of /verif/routes.json (every method of every route of the HTTP interface), fills the path with an existing CA, the other CA or an unknown one, sends a valid-looking or an unusable body, and comes from a caller with no credential, "
         "a wrong token, the admin token, the session token of a configured user with the generated role, or the socket peer mapped to the generated role; distinct by hash of the case JSON; non-trivial iff the generated role was refused at least once and served at least once",
-        "floors": {"__nontrivial__": 0.80, "refused_insufficient_role": 0.80, "refused_state_changing_request": 0.60, "served_role": 0.80, "served_with_per_ca_grant": 0.25, "refused_unauthenticated": 0.70, "public_route": 0.70, "listing_checked": 0.05},
+        "floors": {"__nontrivial__": 0.80, "refused_insufficient_role": 0.80, "refused_state_changing_request": 0.60, "served_role": 0.80, "served_with_per_ca_grant": 0.25, "refused_unauthenticated": 0.70, "public_route": 0.70, "listing_checked": 0.05, "issues_listing_checked": 0.02},
         "assumptions": ["the permission each operation requires is taken from the committed table /verif/routes.json (read off the dispatch code at the pinned commit) after it passed semantic lint rules that do not depend on krill: no state-changing method rides on a read permission, CA routes are checked against the addressed CA, "
                         "every API route has a permission (the two listing routes filter instead), permissions belong to the family of the route",
                         "a request counts as served unless it is answered 401 or 403; 'no effect' is read through an administrator's view (CA list, command counts, CA details, publishers)",
